@@ -15,12 +15,13 @@ type foundation struct {
 	floor int
 	run   func(c *Ctx, sub *Report)
 	rules []string // rules of the sub-report to import
+	share string   // name of another foundation whose (cached) sub-report is reused
 }
 
 func foundationTable() map[string]foundation {
 	return map[string]foundation{
 		"read-loop": {"read-loop", "the channel read loop enqueues every successful non-empty transport read exactly once, with only CR removal and ANSI stripping applied; the read-until loops return everything they dequeued", 6,
-			func(c *Ctx, sub *Report) { checkReadLoopEnqueue(c, sub); checkReadUntilLoops(c, sub) }, []string{"C01/enqueue-once"}},
+			func(c *Ctx, sub *Report) { checkReadLoopEnqueue(c, sub); checkReadUntilLoops(c, sub) }, []string{"C01/enqueue-once"}, ""},
 		"transport-pipe": {"transport-pipe", "each built-in transport's Read returns exactly the bytes of one underlying read, Write forwards the caller's bytes, and the Transport wrapper passes both through unchanged", 9,
 			func(c *Ctx, sub *Report) {
 				for _, typ := range []string{"System", "Standard", "Telnet"} {
@@ -28,13 +29,13 @@ func foundationTable() map[string]foundation {
 					checkWriteForward(c, sub, typ)
 				}
 				checkTransportWrapper(c, sub)
-			}, []string{"C16/read-prefix", "C16/write-forward", "C16/wrapper"}},
+			}, []string{"C16/read-prefix", "C16/write-forward", "C16/wrapper"}, ""},
 		"queue": {"queue", "the byte queue between the read loop and the operations is a lossless FIFO with a consistent depth mailbox", 20,
-			func(c *Ctx, sub *Report) { runC20(c, sub) }, []string{"C20/locked", "C20/token", "C20/republish", "C20/fifo-shape", "C20/non-blocking-empty"}},
+			func(c *Ctx, sub *Report) { runC20(c, sub) }, []string{"C20/locked", "C20/token", "C20/republish", "C20/fifo-shape", "C20/non-blocking-empty"}, ""},
 		"netconf-framing": {"netconf-framing", "serialize frames the payload it reports, in the framing of the version it is given", 8,
-			func(c *Ctx, sub *Report) { checkSerializeFraming(c, sub) }, []string{"C03/framing"}},
+			func(c *Ctx, sub *Report) { checkSerializeFraming(c, sub) }, []string{"C03/framing"}, ""},
 		"priv-steps": {"priv-steps", "processAcquirePriv / escalate / deescalate implement the step table of the privilege machinery", 9,
-			func(c *Ctx, sub *Report) { runC04(c, sub) }, []string{"C04/step-table", "C04/step-wiring", "C04/level-detection", "C04/graph-links"}},
+			func(c *Ctx, sub *Report) { runC04(c, sub) }, []string{"C04/step-table", "C04/step-wiring", "C04/level-detection", "C04/graph-links"}, ""},
 		"send-input": {"send-input", "one send = write(input), read until the echo, write one return, read until the prompt; the echo matchers test what they are meant to test", 8,
 			func(c *Ctx, sub *Report) {
 				checkSendInputWorker(c, sub)
@@ -42,34 +43,44 @@ func foundationTable() map[string]foundation {
 				checkFuzzyThreaded(c, sub)
 				checkWritePrimitives(c, sub)
 				checkExplicitMatcherArgs(c, sub, "C01/explicit-matcher")
-			}, []string{"C01/tx-seq", "C01/fuzzy-consume", "C01/write-primitives", "C01/explicit-matcher"}},
+			}, []string{"C01/tx-seq", "C01/fuzzy-consume", "C01/write-primitives", "C01/explicit-matcher"}, ""},
 		"netconf-reader": {"netconf-reader", "the NETCONF reader keeps what follows its echo, examines it before reading on, and files each reply under the id found in it", 4,
-			func(c *Ctx, sub *Report) { runC08(c, sub) }, []string{"C08/echo-keeps-rest", "C08/echo-remainder-examined", "C08/own-id", "C08/id-pattern"}},
+			func(c *Ctx, sub *Report) { runC08(c, sub) }, []string{"C08/echo-keeps-rest", "C08/echo-remainder-examined", "C08/own-id", "C08/id-pattern"}, ""},
 		"netconf-version": {"netconf-version", "determineVersion implements the negotiation table: the selected version and the delimiter installed in the channel always agree", 12,
-			func(c *Ctx, sub *Report) { runC09(c, sub) }, []string{"C09/version-table"}},
+			func(c *Ctx, sub *Report) { runC09(c, sub) }, []string{"C09/version-table"}, ""},
 		"write-primitives": {"write-primitives", "Channel.Write hands the caller's bytes unchanged to the transport; WriteAndReturn is that write followed by exactly one return", 3,
-			func(c *Ctx, sub *Report) { checkWritePrimitives(c, sub) }, []string{"C01/write-primitives"}},
+			func(c *Ctx, sub *Report) { checkWritePrimitives(c, sub) }, []string{"C01/write-primitives"}, ""},
 		"client-hello": {"client-hello", "the client hello written is the constant of the selected version, advertising exactly that version", 4,
-			func(c *Ctx, sub *Report) { checkHellos(c, sub) }, []string{"C09/hello"}},
+			func(c *Ctx, sub *Report) { checkHellos(c, sub) }, []string{"C09/hello"}, ""},
 		"callbacks": {"callbacks", "the callback machinery scans every callback on every pass and executes the first one whose trigger holds with the bookkeeping of the specification (once, reset, next timeout)", 8,
-			func(c *Ctx, sub *Report) { runC18(c, sub) }, []string{"C18/execute", "C18/scan-every-pass", "C18/scan-every-callback", "C18/first-in-order", "C18/timeout"}},
+			func(c *Ctx, sub *Report) { runC18(c, sub) }, []string{"C18/execute", "C18/scan-every-pass", "C18/scan-every-callback", "C18/first-in-order", "C18/timeout"}, ""},
 		"interactive": {"interactive", "the interactive send paces its events on the device's responses and stops at a completion pattern before typing the next (hidden) input", 5,
-			func(c *Ctx, sub *Report) { runC12(c, sub) }, []string{"C12/pace", "C12/completion-gate", "C12/accumulate", "C12/escalation-shape"}},
+			func(c *Ctx, sub *Report) { runC12(c, sub) }, []string{"C12/pace", "C12/completion-gate", "C12/accumulate", "C12/escalation-shape"}, ""},
 		"response-record": {"response-record", "Response.Record stores the recorded output unchanged as the result and marks failure exactly on a contained failure string", 3,
-			func(c *Ctx, sub *Report) { checkRecordMark(c, sub) }, []string{"C13/mark"}},
+			func(c *Ctx, sub *Report) { checkRecordMark(c, sub) }, []string{"C13/mark"}, ""},
 		"driver-options": {"driver-options", "every driver option stores exactly the setting it names, from its own argument, on every success path", 45,
-			func(c *Ctx, sub *Report) { runC19(c, sub) }, []string{"C19/O1O2", "C19/O3", "C19/O5", "C19/O8"}},
+			func(c *Ctx, sub *Report) { runC19(c, sub) }, []string{"C19/O1O2", "C19/O3", "C19/O5", "C19/O8"}, ""},
 		"platform-fresh": {"platform-fresh", "every load of a platform definition yields objects of its own", 1,
-			func(c *Ctx, sub *Report) { checkFreshDefinition(c, sub) }, []string{"C17/fresh-definition"}},
+			func(c *Ctx, sub *Report) { checkFreshDefinition(c, sub) }, []string{"C17/fresh-definition"}, ""},
 		"telnet-negotiation": {"telnet-negotiation", "the telnet opening is parsed byte by byte by the specified automaton and everything else is handed to the first read", 50,
-			func(c *Ctx, sub *Report) { runC15(c, sub) }, []string{"C15/automaton", "C15/feed-all", "C15/first-read"}},
+			func(c *Ctx, sub *Report) { runC15(c, sub) }, []string{"C15/automaton", "C15/feed-all", "C15/first-read"}, ""},
 		"open-cleanup": {"open-cleanup", "a failed Channel.Open closes channel and transport exactly once and requeues what the login consumed", 4,
 			func(c *Ctx, sub *Report) {
 				checkOpenCleanup(c, sub)
 				checkNoDoubleChannelClose(c, sub, "C10/no-double-close")
-			}, []string{"C10/cleanup-requeue", "C10/no-double-close"}},
-		"ansi": {"ansi", "the escape-sequence pattern applied by the read loop cannot run across ESC or a line end", 1,
-			func(c *Ctx, sub *Report) { checkANSIPatternBounded(c, sub, "x/ansi") }, []string{"x/ansi"}},
+			}, []string{"C10/cleanup-requeue", "C10/no-double-close"}, ""},
+		"priv-bounded": {"priv-bounded", "the privilege navigation loop gives up after a number of steps bounded by the size of the level graph (Close of a network driver runs it from the on-close hook)", 2,
+			func(c *Ctx, sub *Report) { runC04(c, sub) }, []string{"C04/bounded"}, "priv-steps"},
+		"escalation-secret": {"escalation-secret", "the escalation dialogue types the secondary secret and nothing else in answer to the escalation prompt", 6,
+			func(c *Ctx, sub *Report) { runC04(c, sub) }, []string{"C04/step-wiring"}, "priv-steps"},
+		"platform-options": {"platform-options", "every option name a platform definition can carry produces the driver option of that name", 14,
+			func(c *Ctx, sub *Report) { runC19(c, sub) }, []string{"C19/O7"}, "driver-options"},
+		"netconf-reader-lifecycle": {"netconf-reader-lifecycle", "the NETCONF reader stays in its loop on channel errors and sendRPC hands on the error it is offered", 2,
+			func(c *Ctx, sub *Report) { checkNetconfForward(c, sub); checkNetconfReaderKeepsReporting(c, sub) }, []string{"C06/netconf-forward"}, ""},
+		"lock-paired": {"lock-paired", "every Lock of a library mutex is released on all paths to the return", 4,
+			func(c *Ctx, sub *Report) { checkLockPaired(c, sub) }, []string{"C07/lock-paired"}, ""},
+		"ansi": {"ansi", "the escape-sequence pattern applied by the read loop cannot run across ESC or a line end and never cuts a complete sequence short", 2,
+			func(c *Ctx, sub *Report) { checkANSIPatternBounded(c, sub, "x/ansi"); checkANSINoShadow(c, sub, "x/ansi") }, []string{"x/ansi"}, ""},
 	}
 }
 
@@ -83,11 +94,15 @@ func importFoundation(c *Ctx, r *Report, prop, name string) {
 	}
 	rule := prop + "/found-" + f.name
 	r.Rule(rule, "(foundation) "+f.text, f.floor)
-	sub := foundationCache[name]
+	key := name
+	if f.share != "" {
+		key = f.share
+	}
+	sub := foundationCache[key]
 	if sub == nil {
 		sub = NewReport("x")
 		f.run(c, sub)
-		foundationCache[name] = sub
+		foundationCache[key] = sub
 	}
 	want := map[string]bool{}
 	for _, x := range f.rules {
